@@ -97,8 +97,11 @@ def snap_hrg(h):
 # ------------------------------------------------------------------ canonical results (equal up to fresh ids)
 
 def canon_tensor(t):
-    d = t.to_dense().detach()
-    return ('tensor', tuple(d.shape), str(d.dtype), d.contiguous().numpy().tobytes())
+    dd = t.to_dense()
+    d = dd.detach()
+    # whether the result is connected to the autograd graph is part of the result (a query that silently switches
+    # requires_grad off on the weights makes the next sum_product non-differentiable)
+    return ('tensor', tuple(d.shape), str(d.dtype), d.contiguous().numpy().tobytes(), bool(dd.requires_grad))
 
 
 def canon_rule(r):
@@ -141,7 +144,9 @@ def run_query(q, fgg, info, other, spec, ctx):
             zs = fggs.sum_products(g, **opts)
             return tuple((el.name, canon_tensor(t)) for el, t in zs.items())
         if q['q'] == 'viterbi':
-            g = fgg['viterbi']
+            # decoding the grammar that is being trained: the Log-semiring grammar (same log-domain weights, possibly requiring
+            # gradients) is a legitimate argument of viterbi
+            g = fgg['log'] if kind == 'log' else fgg['viterbi']
             shape = g.shape(g.start)
             asst = tuple((q['n'] + i) % s for i, s in enumerate(shape)) if all(s > 0 for s in shape) else None
             if asst is None: return ('skip',)
